@@ -121,6 +121,7 @@ func (u *UISession) sink(frame string) {
 	s.Probe("frame_by:" + callerOfSinkAt(2))
 	checkTerm(u.r, "frame", frame)
 	checkFrameHeight(u.r, frame, sizes)
+	checkFrameCentred(u.r, frame)
 }
 
 func (u *UISession) LastFrame() (Frame, bool) {
@@ -334,4 +335,61 @@ func checkFrameHeight(r *Run, frame string, sizes [][2]int) {
 		diff = "more"
 	}
 	r.Violate("C16", "M-height", diff+"-lines-than-terminal", fmt.Sprintf("frame has %d lines, the terminal has %d rows (recent size reports %v)", lines, want, sizes))
+}
+
+// checkFrameCentred is the second half of M-height (C16): the highlighted item (the lines that
+// start with the cursor bar), or the loading text, sits in the vertical centre: the rows above it
+// number floor(spare/2). Judged from the frame alone; frames in which the block reaches the last
+// row (it may continue below the screen or under the status line) are not judged.
+func checkFrameCentred(r *Run, frame string) {
+	raw := strings.Split(frame, "\n")
+	H := len(raw)
+	if H < 2 {
+		return
+	}
+	hasFooter := strings.HasPrefix(raw[H-1], "\x1b[48;2;")
+	first, last, loading := -1, -1, -1
+	for i, l := range raw {
+		pl := stripSGR(l)
+		if hasFooter && i == H-1 {
+			continue
+		}
+		if strings.HasPrefix(pl, "┃") {
+			if first < 0 {
+				first = i
+			}
+			last = i
+		} else if strings.TrimSpace(pl) == "Loading…" && first < 0 && loading < 0 {
+			loading = i
+		}
+	}
+	if first < 0 {
+		// the loading screen: one centred line in an otherwise empty frame
+		if loading >= 0 {
+			other := false
+			for i, l := range raw {
+				if i != loading && strings.TrimSpace(stripSGR(l)) != "" {
+					other = true
+				}
+			}
+			if !other && loading != (H-1)/2 {
+				r.Violate("C16", "M-height", "loading-text-not-centred", fmt.Sprintf("the loading text is on row %d of %d, expected row %d", loading, H, (H-1)/2))
+			}
+		}
+		return
+	}
+	bottom := H - 1
+	if hasFooter {
+		bottom = H - 2
+	}
+	if last >= bottom {
+		return // the block reaches the bottom of the visible area: its true height is unknown
+	}
+	bh := last - first + 1
+	want := (H - bh) / 2
+	if first != want {
+		r.Violate("C16", "M-height", "highlighted-item-not-centred", fmt.Sprintf("the highlighted item occupies rows %d-%d of %d; with %d spare rows it should start at row %d", first, last, H, H-bh, want))
+		return
+	}
+	r.S.Probe("frame_centred_ok")
 }
